@@ -877,7 +877,7 @@ let bNR = null;
 let bNF = null;
 if (join_matches.length == 1)
     [bNR, bNF, record_b] = join_matches[0];
-let up_fields = record_a;
+let up_fields = record_a.slice(); // UPDATE must work on a copy: the caller's input records are never modified.
 __RBQLMP__variables_init_code
 if (join_matches.length == 1 && (__RBQLMP__where_expression)) {
     NU += 1;
@@ -889,7 +889,7 @@ if (!await query_context.writer.write(up_fields))
 
 
 const PROCESS_UPDATE_SIMPLE = `
-let up_fields = record_a;
+let up_fields = record_a.slice(); // UPDATE must work on a copy: the caller's input records are never modified.
 __RBQLMP__variables_init_code
 if (__RBQLMP__where_expression) {
     NU += 1;
